@@ -122,7 +122,7 @@ Definition e_attrs (e : entry) : list attribute :=
 Definition is_class_entry (e : entry) : bool :=
   match e with EClass _ _ _ _ _ _ _ => true | _ => false end.
 
-(* the class-structural content of an entry: what C09 speaks about.  Parameter names and
+(* the class-structural content of an entry: what C09 speaks about.  The argument names and
    macro notes of methods come from later definitions and are not part of this view. *)
 Record cv := {
   cv_name : str; cv_doc : str; cv_supers : list str; cv_inner : list str;
@@ -180,6 +180,48 @@ Definition class_run (N : nat) (it : items) (st st' : agg) : Prop :=
 (* the four flags that govern class content *)
 Definition class_flags_on (fl : flags) : bool :=
   inc_cpp_class fl && inc_cpp_attr fl && inc_cpp_constructor fl && inc_cpp_member fl.
+
+(* kinds of commands, one element's kind, and state predicates used in the statements below *)
+Definition k_class_cmd (k : str) : Prop := k = s"cpp_class" \/ k = s"cpp_end_class".
+Definition k_decl_cmd (k : str) : Prop :=
+  k = s"ct_add_test" \/ k = s"ct_add_section" \/ k = s"cpp_member" \/ k = s"cpp_constructor".
+Definition k_class_item (k : str) : Prop :=
+  k = s"cpp_class" \/ k = s"cpp_end_class" \/ k = s"cpp_member" \/ k = s"cpp_constructor"
+  \/ k = s"cpp_attr".
+
+(* one element: Q4b and the frame facts used below *)
+Definition elem_kind (e : element) : option str :=
+  match e with
+  | EDocCmd _ c => Some (cmd_kind c)
+  | ECmd c => Some (cmd_kind c)
+  | EDangling _ => None
+  end.
+
+(* the hypothesis under which blocks are balanced: with the class flag on every header needs
+   a name; with the flag off no class may carry a doccomment (finding F9) *)
+Definition balanced_node (fl : flags) (n : node) : bool :=
+  if inc_cpp_class fl then class_hdrs_ok_node n else no_doc_class_node n.
+Definition balanced_nodes (fl : flags) (l : list node) : bool :=
+  if inc_cpp_class fl then class_hdrs_ok l else no_doc_class l.
+
+(* the top of the class stack, if any, points at an existing entry *)
+Definition top_in_range (st : agg) : bool :=
+  match class_stack st with
+  | Some i :: _ => Nat.ltb i (length (documented st))
+  | _ => true
+  end.
+Definition is_top (i : nat) (st : agg) : bool :=
+  match class_stack st with
+  | Some j :: _ => Nat.eqb i j
+  | _ => false
+  end.
+
+Definition stack_in_range (st : agg) : bool :=
+  forallb (fun o => match o with
+                    | Some i => Nat.ltb i (length (documented st))
+                    | None => true
+                    end) (class_stack st).
+
 
 (* ---- generic list / string helpers ------------------------------------------------ *)
 
@@ -861,12 +903,6 @@ Section WithParams.
     - apply cv_frame_upd. intros e. apply (cview_upd_awaiting (AwMethod cidx is_ctor)).
   Qed.
 
-  Definition k_class_cmd (k : str) : Prop := k = s"cpp_class" \/ k = s"cpp_end_class".
-  Definition k_decl_cmd (k : str) : Prop :=
-    k = s"ct_add_test" \/ k = s"ct_add_section" \/ k = s"cpp_member" \/ k = s"cpp_constructor".
-  Definition k_class_item (k : str) : Prop :=
-    k = s"cpp_class" \/ k = s"cpp_end_class" \/ k = s"cpp_member" \/ k = s"cpp_constructor"
-    \/ k = s"cpp_attr".
 
   Lemma handler_not_class : forall h, ~ k_class_cmd (kind_name h) -> h <> HClass.
   Proof. intros h H E; subst; apply H; left; reflexivity. Qed.
@@ -959,13 +995,6 @@ Section WithParams.
     - destruct (is_def_name (cmd_kind c)); inversion H; subst; frame_solve.
   Qed.
 
-  (* one element: Q4b and the frame facts used below *)
-  Definition elem_kind (e : element) : option str :=
-    match e with
-    | EDocCmd _ c => Some (cmd_kind c)
-    | ECmd c => Some (cmd_kind c)
-    | EDangling _ => None
-    end.
 
   Lemma step_frame : forall fl st e st',
       step fl st e = Ok st' ->
@@ -1041,12 +1070,6 @@ Section WithParams.
   Lemma end_def_not_class : forall c, is_end_def_cmd c = true -> ~ k_class_cmd (cmd_kind c).
   Proof. intros c H. apply not_item_not_class, end_def_not_item, H. Qed.
 
-  (* the hypothesis under which blocks are balanced: with the class flag on every header needs
-     a name; with the flag off no class may carry a doccomment (finding F9) *)
-  Definition balanced_node (fl : flags) (n : node) : bool :=
-    if inc_cpp_class fl then class_hdrs_ok_node n else no_doc_class_node n.
-  Definition balanced_nodes (fl : flags) (l : list node) : bool :=
-    if inc_cpp_class fl then class_hdrs_ok l else no_doc_class l.
 
   Lemma balanced_nodes_forallb : forall fl l, balanced_nodes fl l = forallb (balanced_node fl) l.
   Proof.
@@ -1489,17 +1512,6 @@ Section WithParams.
         apply cview_add_inner.
   Qed.
 
-  (* the top of the class stack, if any, points at an existing entry *)
-  Definition top_in_range (st : agg) : bool :=
-    match class_stack st with
-    | Some i :: _ => Nat.ltb i (length (documented st))
-    | _ => true
-    end.
-  Definition is_top (i : nat) (st : agg) : bool :=
-    match class_stack st with
-    | Some j :: _ => Nat.eqb i j
-    | _ => false
-    end.
 
   Theorem class_entry_reflects_body :
     forall fl doc hdr body endc name supers st st',
@@ -1623,11 +1635,6 @@ Section WithParams.
 
   (* ---- reachable states keep the class stack inside the entry list -------------------- *)
 
-  Definition stack_in_range (st : agg) : bool :=
-    forallb (fun o => match o with
-                      | Some i => Nat.ltb i (length (documented st))
-                      | None => true
-                      end) (class_stack st).
 
   Definition range_step (st st' : agg) : Prop :=
     length (documented st) <= length (documented st')
